@@ -32,6 +32,10 @@ CHECKS = {
   technique="deterministic simulation with fault injection: a fault-free cold run numbers every file-system operation of the run; the run is then repeated with one injected fault (errno menu, torn write, failing child, kill -9) at a stratified sample of operation indices (quick) or at every index (thorough sweeps), plus sampled two-fault plans; oracle = mutating-operation log confined to the allowed roots + before/after content+metadata snapshot of the whole sandbox + refusal-before-first-mutation",
   text="Enumerates single faults over the numbered FS operations of real FORD runs in sandboxes with bystander files, across placements of output_dir/graph_dir (sibling, nested, absolute, .., symlink, pre-existing stale with hostile symlinks, regular file, CLI) incl. six refusal placements, cwd and copy/write options. Complete over operation indices only in the thorough sweep worlds; otherwise stratified by (phase, op kind, path class).",
   note="crash = process kill, not power loss; writes by child processes are judged by the snapshot only; running as root so real EACCES never occurs (simulated only); allowed roots are computed from the generated placement, independently of FORD"),
+"C20": dict(level="fault_enumeration", design="5.4",
+  technique="deterministic simulation with storage-fault injection: valid generated world + 1-3 files damaged by seeded truncation (statement/byte), splice, lost block, bit flips, undecodable bytes, empty/binary/directory, unbalanced END, misplaced CONTAINS, malformed-construct grammar, or a simulated errno at open(); placed first/between/last in the read order; real Project()+correlate()+markdown() per variant in forked children of one cold process under a sys.monitoring step budget and a wall watchdog; differential oracle against the same world without the damaged files; sampled cold full-HTML runs",
+  text="Enumerates corruption kinds x positions over generated worlds; for each, the canonical dump (entities, attributes, docs, resolved references, page stems, per-kind lists) of every valid file must equal the dump with the damaged files absent, rejected files must be named in the diagnostics, the parse must finish within a deterministic step budget, and nothing may abort the run while reading. Crashes in correlate caused by a damaged file FORD's parser *accepted* are tallied as out of scope (premise: 'cannot be parsed').",
+  note="step budget counts line events in FORD's reader/parser/project modules only; wall watchdog max(10 s, 200 x fault-free); input lines <= 2 KB; damaged files use an identifier prefix the valid world never uses"),
 }
 m = {"version":1,
  "setup_cmd":"/venv/bin/python -c 'import ford, sys; print(ford.__file__)' && command -v dot setarch >/dev/null && mkdir -p /dev/shm/fordsim",
